@@ -925,6 +925,16 @@ def oracles_sync_properties(op, S0, S1, out, stats):
                 want = ast.unparse(ast.parse(op["wrap"].format(output_param=want)).body[0].value)
             except Exception:
                 continue
+        # the default of an addressed *argument* afterwards is the one it had, or the addressed input's own - never a third value
+        if not ev and ra["chain"][-1][1] == "arg":
+            ro = resolver.resolve(tout, opath)
+            old_d = _arg_default(ro) if ro is not None and ro["chain"][-1][1] == "arg" else None
+            own_d = _arg_default(ri) if ri["chain"][-1][1] == "arg" else (ast.dump(ri["node"].value) if isinstance(ri["node"], ast.AnnAssign) and ri["node"].value is not None else
+                                                                          ast.dump(ri["node"].value) if isinstance(ri["node"], ast.Assign) else None)
+            new_d = _arg_default(ra)
+            stats["sp_default_checked"] = stats.get("sp_default_checked", 0) + 1
+            if new_d is not None and new_d not in (old_d, own_d):
+                v.append(viol("C14", "N-default", op, "%s now has a default that is neither its old one nor the default of %s" % (".".join(apath), a), **pc))
         if have is None or _ws(have) != _ws(want):
             v.append(viol("C14", "N-annotation", op, "%s carries annotation %r, expected %r from %s" % (".".join(apath), have, want, a), **pc))
         elif not ev and isinstance(ri["node"], ast.AnnAssign) and isinstance(ra["node"], ast.AnnAssign):
@@ -936,6 +946,20 @@ def oracles_sync_properties(op, S0, S1, out, stats):
                 v.append(viol("C14", "N-value", op, "%s = %s, the input's %s has the value %s" % (
                     ".".join(apath), None if ra["node"].value is None else ast.unparse(ra["node"].value), a, None if ri["node"].value is None else ast.unparse(ri["node"].value)), **pc))
     return v
+
+
+def _arg_default(r):
+    """dump of the default of the argument a resolver result points at (None: it has none)"""
+    fn, node = r["chain"][-1][0], r["node"]
+    a = fn.args
+    pos = list(getattr(a, "posonlyargs", [])) + list(a.args)
+    if any(node is x for x in pos):
+        i = [k for k, x in enumerate(pos) if x is node][0] - (len(pos) - len(a.defaults))
+        return ast.dump(a.defaults[i]) if i >= 0 else None
+    for x, d in zip(a.kwonlyargs, a.kw_defaults):
+        if x is node:
+            return None if d is None else ast.dump(d)
+    return None
 
 
 def _ws(s):
